@@ -7,6 +7,7 @@ Stand-ins: a recording `web` namespace (Application/router/Response/AppRunner/TC
 objects exposing method / rel_url.query / post(), a scripted websocket.
 """
 import json
+from vt import world as _world
 from vt.world import enter, verdict, cfg, CFG, pick, cut
 from klongpy import KlongInterpreter
 from klongpy.core import KGSym, KGCall, KGLambda
@@ -29,7 +30,7 @@ ASSUMPTIONS = [
 OUTSIDE = ["HTTP/URL/form parsing", "non-ASCII handling inside aiohttp", "the TCP port after .webc (checked here only as: runner cleaned up)",
            "websocket framing"]
 
-K = KlongInterpreter()
+K = _world.hoist(KlongInterpreter())
 LOG = []
 SEEN = []
 
